@@ -44,6 +44,14 @@ Theorem C09_support_labels_and_segments : forall eps, 0 <= eps -> forall a colla
   (occ (a_tracks (support_ann eps a collar)) l s <->
    occurs (a_tracks a) l /\ In s (support eps collar (lab_tl eps (a_tracks a) l))).
 Proof. exact support_ann_label_segments'. Qed.
+Theorem C09_label_timeline_of_support_is_support_of_label_timeline : forall eps, 0 <= eps -> forall a collar l, AInv eps a ->
+  Z.of_nat (List.length (support_recs eps a collar)) < word_bound ->
+  lab_tl eps (a_tracks (support_ann eps a collar)) l = support eps collar (lab_tl eps (a_tracks a) l).
+Proof. exact support_ann_label_timeline. Qed.
+Theorem C09_support_with_collar_0_keeps_every_label_duration : forall eps, 0 <= eps -> forall a l, AInv eps a ->
+  Z.of_nat (List.length (support_recs eps a 0)) < word_bound ->
+  tl_duration eps (lab_tl eps (a_tracks (support_ann eps a 0)) l) = tl_duration eps (lab_tl eps (a_tracks a) l).
+Proof. exact support_ann_keeps_durations. Qed.
 Theorem C09_argmax_within_support : forall eps, 0 <= eps -> forall a S, AInv eps a ->
   let c := crop_ann eps a S Inter in
   match argmax_ann eps a (Some S) with
@@ -78,6 +86,8 @@ Print Assumptions C09_label_duration_is_length_of_union.
 Print Assumptions C09_argmax.
 Print Assumptions C09_support_is_per_label_timeline_support.
 Print Assumptions C09_support_labels_and_segments.
+Print Assumptions C09_label_timeline_of_support_is_support_of_label_timeline.
+Print Assumptions C09_support_with_collar_0_keeps_every_label_duration.
 Print Assumptions C09_argmax_within_support.
 Print Assumptions C09_matrix_entries.
 Print Assumptions C09_track_pairs_of_b_a_are_those_of_a_b_swapped.
